@@ -100,7 +100,23 @@ pub fn fixture(tier: Tier) -> Result<Fixture, Violation> {
         s
     };
     full_t1_used_source_pending.update(Duration::from_millis(10));
+    // the client id of the source's token is connected from another address through a second token of that id: right
+    // after the handshake (the server has heard nothing from it since) and after a first keep-alive
+    let (id_connected_elsewhere_fresh, id_connected_elsewhere_heard) = {
+        let mut s = new_server(2, public.clone(), Duration::ZERO);
+        let mut c = new_client(Duration::ZERO, &t1b);
+        if !nc::connect(&mut s, &mut c, other)? {
+            return Err(Violation::new("C19/fixture", "handshake of the second token of id 1 failed".to_string()));
+        }
+        let fresh = s.clone();
+        if let Some((ka, _)) = nc::cli_update(&mut c, Duration::from_millis(250))? {
+            nc::srv_process(&mut s, other, &ka)?;
+        }
+        (fresh, s)
+    };
     let states = vec![
+        State { name: "the token's client id is connected from another address (nothing heard from it since the handshake)", server: id_connected_elsewhere_fresh, t1_used_elsewhere: false },
+        State { name: "the token's client id is connected from another address (keep-alive received)", server: id_connected_elsewhere_heard, t1_used_elsewhere: false },
         State { name: "empty", server: empty, t1_used_elsewhere: false },
         State { name: "source pending", server: source_pending, t1_used_elsewhere: false },
         State { name: "other address pending", server: other_pending, t1_used_elsewhere: false },
@@ -265,7 +281,7 @@ pub fn run(tier: Tier) -> i32 {
     // the thorough bounds of this property take seconds: the quick tier runs them too
     crate::report::note_tier(tier);
     let tier = { let _ = tier; Tier::Thorough };
-    rep.rule("sweep: every datagram of the alphabet {valid request at 1078 B and padded to 1079/1100/1400; truncated by 1/16/17/500; 9 single-field corruptions; foreign key / foreign protocol / wrong host / expired tokens; valid responses with client sequence 0, 1, 300, padded, truncated; garbage challenge; another session's challenge; another token's keys; all 256 prefix bytes x the parser-threshold length list} presented three times in a row from an address without a completed handshake, in server states {empty, source pending, other address pending, full, full with source pending, another client connected}; oracle per call: at most one reply, addressed to the source, strictly smaller than the datagram received, and no reply at all for datagrams carrying neither a valid connect token nor a valid response");
+    rep.rule("sweep: every datagram of the alphabet {valid request at 1078 B and padded to 1079/1100/1400; truncated by 1/16/17/500; 9 single-field corruptions; foreign key / foreign protocol / wrong host / expired tokens; valid responses with client sequence 0, 1, 300, padded, truncated; garbage challenge; another session's challenge; another token's keys; all 256 prefix bytes x the parser-threshold length list} presented three times in a row from an address without a completed handshake, in server states {empty, source pending, other address pending, full, full with source pending, another client connected, the token's client id connected from another address (silent since its handshake / heard), token already presented elsewhere}; oracle per call: at most one reply, addressed to the source, strictly smaller than the datagram received, and no reply at all for datagrams carrying neither a valid connect token nor a valid response");
     rep.assume("one process_packet call returns at most one datagram by construction of ServerResult; the transport sends exactly what it returns");
     let fx = match fixture(tier) {
         Ok(f) => f,
